@@ -136,7 +136,11 @@ var styleFns = []styleFnEntry{
 	{"oneOf(red)", oneOf("red")},
 }
 
-// oneOf returns closures of ONE function literal that differ only in captured state
+// oneOf returns closures of ONE function literal that differ only in captured state. It must not
+// be inlined: the compiler would duplicate the literal per call site and the closures would no
+// longer share a code pointer (which is what a cache keyed by the handler's identity confuses).
+//
+//go:noinline
 func oneOf(set ...string) func(string) bool {
 	return func(v string) bool {
 		for _, s := range set {
@@ -147,7 +151,6 @@ func oneOf(set ...string) func(string) bool {
 		return false
 	}
 }
-
 
 // Log records what the callbacks of one policy instance saw (per case; never shared).
 type Log struct {
@@ -173,7 +176,7 @@ type Op struct {
 	Vals   []int    `json:"vals,omitempty"`  // sandbox values
 	Match  string   `json:"match,omitempty"` // styles: "", "re", "enum", "fn"
 	Enum   int      `json:"enum,omitempty"`
-	Fn     int      `json:"fn,omitempty"` // callback index
+	Fn     int      `json:"fn,omitempty"`   // callback index
 	Stmt   bool     `json:"stmt,omitempty"` // builder used as separate statements (results of Matching / AllowNoAttrs discarded) instead of one chain
 }
 
@@ -301,7 +304,8 @@ type SpecOpts struct {
 	Pre     []Op
 	ElPool  []string
 	AtPool  []string
-	NoFuncs bool // no callbacks (for properties that need value-identical rebuilds this does not matter; kept for C20's class)
+	StPool  []string // CSS property names for AllowStyles
+	NoFuncs bool     // no callbacks (for properties that need value-identical rebuilds this does not matter; kept for C20's class)
 }
 
 func genOp(t *rapid.T, kind string, o *SpecOpts) Op {
@@ -349,7 +353,11 @@ func genOp(t *rapid.T, kind string, o *SpecOpts) Op {
 		}
 	case "AllowStyles":
 		op.Stmt = rapid.IntRange(0, 5).Draw(t, "stmt") == 0
-		op.Attrs = subset(t, stylePropPool, 1, 3, "sprop")
+		sp := stylePropPool
+		if o != nil && o.StPool != nil {
+			sp = o.StPool
+		}
+		op.Attrs = subset(t, sp, 1, 3, "sprop")
 		op.Match = rapid.SampledFrom([]string{"", "", "re", "enum", "fn"}).Draw(t, "smatch")
 		switch op.Match {
 		case "re":
